@@ -39,7 +39,8 @@ def required_cells(tier):
     return ["class-size>=3", "classes>=2", "weak-digest-collision-different-content", "near-duplicate", "excluded-twin",
             "symlinked-twin", "hard-link", "empty-files", "no-duplicates", "non-source-twin", "cli", "same-size-same-mtime-different-content", "link-enumerated-before-target",
             "class-size>20", "cli:class-size>20", "negation-after-wildcard", "cli:negation-after-wildcard", "two-directory-code-base", "directory-named-through-link",
-            "ancestor-directory-named-like-a-pattern", "report-to-stream", "same-object-after-a-file-was-added", "dot-directory"]
+            "ancestor-directory-named-like-a-pattern", "report-to-stream", "same-object-after-a-file-was-added", "dot-directory",
+            "fixed:reinclusion-below-excluded-directory", "fixed:member-below-excluded-directory-has-a-twin", "fixed:file-names-not-valid-utf-8"]
 
 
 def gen_case(rng, big=False, force_neg=False):
@@ -344,6 +345,75 @@ def check_case(ctx, case, root, cls, do_cli=False):
                          "classes": sorted(sorted(os.path.relpath(p, real_root) for p in c) for c in classes)})
 
 
+def fixed_scenarios(ctx, root):
+    """Deterministic trees outside what gen_case produces.  Membership is what the code base ITSELF answers for every
+    path of an independent os.walk (which files a pattern list keeps is C09's subject); the expected groups are the
+    byte-wise classes of size >= 2 over those members.
+      R  negated patterns naming files below a directory that an earlier pattern excludes
+      B  file names that are not valid UTF-8 (created through the bytes interface), with twins"""
+    import filecmp
+    import io
+    from codebasin import CodeBase, report
+    acc = ctx.acc
+    A, B, C = POOL[0], POOL[1], POOL[2 % len(POOL)]
+    scen = []
+    for k, pats in enumerate((["vendor/", "!vendor/patched.h"], ["sub/*", "!sub/inner/x.c"], ["*", "!*.c"], ["vendor/**", "!vendor/deep/keep.hpp"],
+                              ["/vendor", "!patched.h"], [])):
+        scen.append(("R%d" % k, {"src/patched.h": A, "vendor/patched.h": A, "vendor/other.c": B, "sub/inner/x.c": B, "sub/y.c": B, "top.c": B,
+                                  "vendor/deep/keep.hpp": C, "src/keep_twin.hpp": C, "src/solo.c": POOL[3 % len(POOL)]}, pats, "reinclusion-below-excluded-directory"))
+    bad = {os.fsdecode(b"src/caf\xe9.c"): A, "src/cafe.c": A, "util.c": B, "util_copy.c": B, os.fsdecode(b"\xfctil.c"): B,
+           os.fsdecode(b"sub/\xff\xfe.h"): C, "sub/plain.h": C, os.fsdecode(b"sub/only\x80.c"): POOL[3 % len(POOL)]}
+    scen.append(("B0", bad, [], "file-names-not-valid-utf-8"))
+    scen.append(("B1", bad, ["*.h"], "file-names-not-valid-utf-8"))
+    for k, (name, files, pats, cell) in enumerate(scen):
+        if (k + 1) % ctx.nshards != ctx.shard:
+            continue
+        shutil.rmtree(root, ignore_errors=True)
+        for rel, content in files.items():
+            p = os.path.join(root, rel)
+            os.makedirs(os.path.dirname(p), exist_ok=True)
+            with open(p, "wb") as f:
+                f.write(content)
+            os.utime(p, (1_600_000_000, 1_600_000_000))
+        real_root = os.path.realpath(root)
+        problems = []
+        try:
+            filecmp.clear_cache()
+            cb = CodeBase(real_root, exclude_patterns=list(pats))
+            by = {}
+            members = []
+            for dp, dn, fn in os.walk(real_root):
+                for nm in fn:
+                    full = os.path.join(dp, nm)
+                    if full in cb:
+                        members.append(full)
+                        with open(full, "rb") as f:
+                            by.setdefault(f.read(), set()).add(full)
+            want = {frozenset(v) for v in by.values() if len(v) >= 2}
+            got = {frozenset(str(p) for p in s_) for s_ in report.find_duplicates(cb)}
+            acc.hook("find_duplicates")
+            show = lambda cl: sorted(sorted(ascii(os.path.relpath(p, real_root)) for p in c) for c in cl)
+            if got != want:
+                problems.append({"mode": "find_duplicates", "members": sorted(ascii(os.path.relpath(m, real_root)) for m in members),
+                                 "expected": show(want), "observed": show(got)})
+            buf = io.StringIO()
+            filecmp.clear_cache()
+            report.duplicates(CodeBase(real_root, exclude_patterns=list(pats)), stream=buf)
+            groups = {frozenset(g) for g in cli.parse_duplicates("Duplicates\n" + buf.getvalue())}
+            if groups != want:
+                problems.append({"mode": "report.duplicates(stream=...)", "expected": show(want), "observed": show(groups)})
+        except Exception as e:
+            problems.append({"mode": "exception", "observed": f"{type(e).__name__}: {e}"})
+        cells = {"fixed:" + cell}
+        if cell.startswith("reinclusion") and any("vendor/patched.h" in m or "sub/inner" in m for m in members) and pats:
+            cells.add("fixed:member-below-excluded-directory-has-a-twin")
+        case = {"scenario": name, "patterns": pats, "files": sorted(ascii(r) for r in files)}
+        if problems:
+            acc.violated({"input": case, "witness": {"problems": problems, "case": case}}, cells=cells, cls="fixed", nontrivial=None)
+        else:
+            acc.held(cells=cells, cls="fixed", nontrivial=None)
+
+
 def post_check(m, tier):
     # the weak-digest injection is only meaningful while the code hashes files at all; report if it never fired
     return [] if m["hooks"].get("H-hash", 0) else ["H-hash (forced digest collisions) never fired: find_duplicates no longer calls hashlib.file_digest"] \
@@ -356,6 +426,7 @@ def run_shard(ctx):
     # the tree sits below directories called d0 / d1 / sub: patterns naming such directories apply inside the code base only
     root = os.path.join(ctx.scratch, "d1", "d0", "sub", "cb")
     os.makedirs(os.path.dirname(root), exist_ok=True)
+    fixed_scenarios(ctx, root)
     for i in range(b["cases"]):
         # every 3rd command-line case and one case in 50 elsewhere holds a class of more than 20 files
         case = gen_case(rng, big=(i % 3 == 1 if i < b["cli_cases"] else i % 50 == 7), force_neg=(i < b["cli_cases"] and i % 3 == 2))
